@@ -24,7 +24,9 @@ for pid in sys.argv[1:]:
             if commit is None:
                 print(f"  {pid}: fixed entry has no matching commit in /repo yet ({patch}) - skipped"); continue
             f["commit"] = commit
-            f["what"] = f"fixed: property={pid} {commit} " + f["what"]
+            import re as _re
+            w = _re.sub(r"^(fixed: property=\S+ \S+ )+", "", f["what"])
+            f["what"] = f"fixed: property={pid} {commit} " + w
         kf["findings"].append(f)
         print("  merged", pid, f["status"], f["what"][:90])
 json.dump(kf, open(os.path.join(V, "known_findings.json"), "w"), indent=1)
